@@ -465,6 +465,9 @@ pub fn grid(thorough: bool) -> Vec<CbCfg> {
                     for permitted in [1usize, 2] {
                         for &(slow_ms, slow_rate) in slows {
                             for custom in [false, true] {
+                                // the custom classifier is installed first in every other
+                                // configuration that has one, last in the others
+                                let classifier_first = custom && v.len() % 4 == 1;
                                 v.push(CbCfg {
                                     time_based,
                                     window_size: size,
@@ -478,6 +481,7 @@ pub fn grid(thorough: bool) -> Vec<CbCfg> {
                                     custom_classifier: custom,
                                     fallback: false,
                                     fallback_gated: false,
+                classifier_first,
                                 });
                             }
                         }
@@ -503,6 +507,7 @@ pub fn grid(thorough: bool) -> Vec<CbCfg> {
                 custom_classifier: false,
                 fallback: false,
                 fallback_gated: false,
+                classifier_first: false,
             });
         }
     }
